@@ -121,7 +121,7 @@ contract(C + "_decay_mode_details", types={"decay_mode": "obj:Tree", "display_ph
          ensures=[
              "isfresh(result)", "dlen(result) == 4",
              "dhas(result, 'bf') and dhas(result, 'fs') and dhas(result, 'model') and dhas(result, 'model_params')",
-             "dget(result, 'bf') == float(decay_mode.children[0].children[0].value)",
+             "dget(result, 'bf') == float(decay_mode.children[0].children[0].value)", "typ(dget(result, 'bf'), 'float')",
              # daughters verbatim and in order, in a list of its own
              "typ(dget(result, 'fs'), 'list') and isfresh(dget(result, 'fs')) and llen(dget(result, 'fs')) == len(daughters(decay_mode))",
              "forall(lambda j: implies(0 <= j < len(daughters(decay_mode)), same(lget(dget(result, 'fs'), j), daughters(decay_mode)[j].children[0].value)))",
@@ -206,3 +206,27 @@ contract(C + "list_decay_mother_names", requires=PARSED,
                   f"llen(result) == llen({DECAYS})",
                   f"forall(lambda j: implies(0 <= j < llen(result), same(lget(result, j), mother_of(lget({DECAYS}, j)))))"],
          raises={"DecFileNotParsed": "self._parsed_dec_file is None"}, returns="list", properties=["C01"])
+
+
+# ---- C16: print_decay_modes -- which option combinations are refused, and "printing never alters the stored values" ----
+# (what is printed -- order, scaling, 7 significant digits -- is text on stdout: bounded stand-in)
+contract(C + "print_decay_modes",
+         types={"mother": "str", "pdg_name": "bool", "print_model": "bool", "display_photos_keyword": "bool",
+                "ascending": "bool", "normalize": "bool", "scale": "float|none"},
+         requires=PARSED + ["not pdg_name"],
+         ensures=["result is None", "has_table(self, mother)",
+                  # accepted options: no scale, or a scale in ]0, 1] without normalisation
+                  "scale is None or (not normalize and 0.0 < as_ty(scale, 'float') <= 1.0)"],
+         opts={"entry_defined": True}, defs=["has_table_def(self)"],
+         # (DecFileNotParsed and DecayNotFound are RuntimeErrors: the first clause covers the three together)
+         raises={"RuntimeError": "(scale is not None and (normalize or not (0.0 < as_ty(scale, 'float') <= 1.0))) or self._parsed_dec_file is None or not has_table(self, mother)",
+                 # the common factor is a quotient: it does not exist when the values it is made from are all zero
+                 "ZeroDivisionError": None,
+                 "DecFileNotParsed": "(scale is None or (not normalize and 0.0 < scale <= 1.0)) and self._parsed_dec_file is None",
+                 "DecayNotFound": "(scale is None or (not normalize and 0.0 < scale <= 1.0)) and self._parsed_dec_file is not None and not has_table(self, mother)",
+                 # scaling divides by the largest value: a table without lines has none
+                 "IndexError": f"scale is not None and not normalize and 0.0 < scale <= 1.0 and self._parsed_dec_file is not None and has_table(self, mother) and len(lines_of(lget({DECAYS}, first_table(self, mother)))) == 0"},
+         loops={"loop#0": {"invariant": ["typ(ls, 'list') and isfresh(ls)", "llen(ls) == _i", "typ(max_length, 'int')",
+                                         "forall(lambda j: implies(0 <= j < llen(ls), typ(lget(ls, j), 'tuple') and llen(lget(ls, j)) == 4 and typ(lget(lget(ls, j), 0), 'float')))"]},
+                "loop#1": {"invariant": []}},
+         returns="none", properties=["C16"])
